@@ -52,7 +52,34 @@ def make_points():
         })
         cls.__abstractmethods__ = frozenset()
         return object.__new__(cls)
+    global _PT5
+    _PT5 = build(TriangularPoint, -1)       # L5 stand-in (sign -1); L4 is returned in the tuple
     return build(CollinearPoint, 1), build(CollinearPoint, -1), build(TriangularPoint, 1), (Cf, Cfi), (gamma, mu, aa)
+
+
+_PT5 = None
+
+
+def _replay_pointmaps():
+    """Real build: synodic <-> local maps at all five Earth-Moon points: both round trips on random points, and the equilibrium at
+    rest is the local origin."""
+    return '''
+import warnings; warnings.filterwarnings("ignore")
+from hiten.system import System
+from hiten.algorithms.hamiltonian import transforms as tf
+sysm = System.from_bodies("earth", "moon"); rs = np.random.default_rng(18); bad = {}
+for k in (1, 2, 3, 4, 5):
+    pt = sysm.get_libration_point(k)
+    f, g = (tf._local2synodic_collinear, tf._synodic2local_collinear) if k <= 3 else (tf._local2synodic_triangular, tf._synodic2local_triangular)
+    for _ in range(5):
+        c = 0.1 * rs.normal(size=6)
+        e1 = float(np.max(np.abs(np.real(g(pt, f(pt, c))) - c))); syn = np.real(f(pt, c)); e2 = float(np.max(np.abs(np.real(f(pt, g(pt, syn))) - syn)))
+        if e1 > 1e-10 or e2 > 1e-10: bad["L%d_roundtrip" % k] = [e1, e2]
+    eq = np.concatenate([np.asarray(pt.position, dtype=float), np.zeros(3)])
+    e3 = float(np.max(np.abs(np.real(g(pt, eq))))); e4 = float(np.max(np.abs(np.real(f(pt, np.zeros(6))) - eq)))
+    if e3 > 1e-9 or e4 > 1e-9: bad["L%d_equilibrium_is_not_the_local_origin" % k] = [e3, e4]
+_verdict(bool(bad), **bad)
+'''
 
 
 def _replay_general():
@@ -246,8 +273,17 @@ except Exception as e:
             (chk.ok if same(back, c) else (lambda o, d: chk.fail(o, d, None)))('C18/(4)synodic2local o local2synodic = id/%s' % name, 'symbolic mu, gamma, offset a and coordinates')
             fwd = tf._local2synodic_collinear(point, tf._synodic2local_collinear(point, c))
             (chk.ok if same(fwd, c) else (lambda o, d: chk.fail(o, d, None)))('C18/(4)local2synodic o synodic2local = id/%s' % name, 'symbolic')
-        syn = tf._local2synodic_triangular(pT, c)
-        (chk.ok if same(tf._synodic2local_triangular(pT, syn), c) else (lambda o, d: chk.fail(o, d, None)))('C18/(4)synodic2local o local2synodic = id/triangular', 'exact with sqrt(3)')
+        for name, point, sg in (('triangular sign=+1 (L4)', pT, 1), ('triangular sign=-1 (L5)', _PT5, -1)):
+            syn = tf._local2synodic_triangular(point, c)
+            (chk.ok if same(tf._synodic2local_triangular(point, syn), c) else (lambda o, d: chk.fail(o, d, _replay_pointmaps())))('C18/(4)synodic2local o local2synodic = id/%s' % name, 'exact with sqrt(3)')
+            fwd = tf._local2synodic_triangular(point, tf._synodic2local_triangular(point, c))
+            (chk.ok if same(fwd, c) else (lambda o, d: chk.fail(o, d, _replay_pointmaps())))('C18/(4)local2synodic o synodic2local = id/%s' % name, 'exact with sqrt(3)')
+            # independent anchor: the equilibrium (1/2 - mu, sign*sqrt(3)/2, 0; at rest) is the local origin, in both directions
+            from engine.sym import sqrt as _ssqrt
+            eq = np.array([Sym.const(1) / 2 - mu, sg * _ssqrt(Sym.const(3)) / 2, Sym.const(0), Sym.const(0), Sym.const(0), Sym.const(0)])
+            zero = np.array([Sym.const(0)] * 6)
+            (chk.ok if same(tf._synodic2local_triangular(point, eq), zero) and same(tf._local2synodic_triangular(point, zero), eq) else (lambda o, d: chk.fail(o, d, _replay_pointmaps())))(
+                'C18/(4)equilibrium <-> local origin/%s' % name, 'synodic2local(L4/L5 at rest) = 0 and local2synodic(0) = L4/L5 at rest, symbolic mu')
         lm = tf._coordrealmodal2local(pL1, c)
         (chk.ok if same(tf._coordlocal2realmodal(pL1, lm), c) else (lambda o, d: chk.fail(o, d, None)))('C18/(4)coordlocal2realmodal o coordrealmodal2local = id', 'C_inv (C x) = x for the symbolic family')
         # polynomial change physical->real_modal agrees with coordinate change realmodal->local
